@@ -66,7 +66,7 @@ func fromMultihash(ctx context.Context, services coreiface.CoreAPI, hash cid.Cid
 	if options.Length != nil && *options.Length > -1 {
 		sorting.Sort(sortFn, entries, false)
 
-		entries = entrySlice(entries, -*options.Length)
+		entries = entryLast(entries, *options.Length)
 	}
 
 	var heads []cid.Cid
@@ -207,6 +207,16 @@ func fromEntry(ctx context.Context, services coreiface.CoreAPI, sourceEntries []
 		ID:     result[len(result)-1].GetLogID(),
 		Values: result,
 	}, nil
+}
+
+// entryLast returns the last n entries; unlike entrySlice(entries, -n) it
+// returns nothing, not everything, when n is 0.
+func entryLast(entries []iface.IPFSLogEntry, n int) []iface.IPFSLogEntry {
+	if n <= 0 {
+		return []iface.IPFSLogEntry{}
+	}
+
+	return entrySlice(entries, -n)
 }
 
 func entrySlice(entries []iface.IPFSLogEntry, index int) []iface.IPFSLogEntry {
